@@ -23,6 +23,8 @@ type fpShape struct {
 	gen2      bool // a second generates entry (out2.txt), written by the same command
 	prompt    bool
 	collide   bool // a second task whose name normalises to the same state file, same sources
+	twin      bool // two tasks whose names differ in one punctuation character that is legal in file names (a_b / a-b): separate state
+	noMatch   bool // the sources pattern matches no file at all
 	dep       bool // build depends on another fingerprinted task
 	include   bool // the task lives in an included Taskfile (namespaced)
 	label     bool
@@ -41,6 +43,9 @@ func (sh fpShape) taskName() string {
 	}
 	if sh.collide {
 		return "a:b"
+	}
+	if sh.twin {
+		return "a_b"
 	}
 	return "build"
 }
@@ -76,6 +81,9 @@ func fpBody(tag string, sh fpShape) string {
 func (sh fpShape) files() map[string]string {
 	task := func(name, tag string) string {
 		s := "  '" + name + "':\n    method: " + sh.method + "\n    sources: ['{{.ROOT_DIR}}/src/*.txt']\n"
+		if sh.noMatch {
+			s = "  '" + name + "':\n    method: " + sh.method + "\n    sources: ['{{.ROOT_DIR}}/src/*.none']\n"
+		}
 		if sh.gen2 {
 			s += "    generates: ['{{.ROOT_DIR}}/out.txt', '{{.ROOT_DIR}}/out2.txt']\n"
 		} else if sh.generates {
@@ -111,6 +119,8 @@ func (sh fpShape) files() map[string]string {
 		files["inc.yml"] = "version: '3'\ntasks:\n" + task("build", "build")
 	case sh.collide:
 		files["Taskfile.yml"] = "version: '3'\ntasks:\n" + task("a:b", "build") + task("a-b", "other")
+	case sh.twin:
+		files["Taskfile.yml"] = "version: '3'\ntasks:\n" + task("a_b", "build") + task("a-b", "other")
 	case sh.dep:
 		files["Taskfile.yml"] = "version: '3'\ntasks:\n" + task("build", "build") +
 			"  prep:\n    method: " + sh.method + "\n    sources: ['{{.ROOT_DIR}}/src/*.txt']\n    cmds:\n      - 'echo start:prep >> {{.ROOT_DIR}}/trace.log'\n      - 'echo done:prep >> {{.ROOT_DIR}}/trace.log'\n"
@@ -222,7 +232,7 @@ func fpInvocations(sh fpShape) []fpInv {
 	if sh.prompt {
 		invs = append(invs, fpInv{name: "run-declined", args: []string{t}, kind: "run"})
 	}
-	if sh.collide {
+	if sh.collide || sh.twin {
 		invs = append(invs, fpInv{name: "run-other", args: []string{"a-b"}, kind: "run", other: true})
 	}
 	if sh.condLabel {
@@ -292,6 +302,9 @@ func fpEvents(prop string, sh fpShape, tier string) []hEvent {
 			m := hm.(*fpModel)
 			var out []vlab.Violation
 			fp := fpOf(dir, sh.method)
+			if sh.noMatch {
+				fp = "(the sources pattern matches no file)"
+			}
 			if sh.method == "timestamp" && fp != m.TSFp {
 				// mtimes changed: earlier attempts belong to another fingerprint
 				m.Attempts = map[string]string{}
@@ -329,6 +342,14 @@ func fpEvents(prop string, sh fpShape, tier string) []hEvent {
 			if inv.other {
 				for _, l := range delta {
 					if l == "done:other" {
+						if sh.twin {
+							// separate tasks with separate state: the twin's success says nothing about
+							// build and takes nothing away from build's own record either
+							if _, own := m.Attempts[key]; !own {
+								m.Attempts[key] = "only-the-task-whose-name-differs-in-an-underscore-ran"
+							}
+							continue
+						}
 						m.Attempts[key] = "other-task" // an attempt of a DIFFERENT task: says nothing about build
 					}
 				}
@@ -448,6 +469,51 @@ func c04CancelUnits(tier string) []*Unit {
 			}}
 		}, vlab.Inst{Task: "fp", VP: "@>root.c1"}, "failed_in_called_shared_task", "fp failed in its call of a shared task whose only execution had failed"},
 	}
+	// fp's only command carries ignore_error and consists of two statements; a failing sibling
+	// cancels it between them. ignore_error covers the command's exit status, not its cancellation:
+	// the attempt did not complete and nothing is recorded.
+	for _, method := range []string{"checksum", "timestamp"} {
+		method := method
+		pg := &Prog{Tasks: []*T{
+			{Name: "root", Deps: []Ref{D("fp"), D("failer")}},
+			{Name: "fp", Method: method, Sources: []string{"src.txt"}, RawLines: []string{"cmds:",
+				"  - cmd: \"printf '%s\\\\n' 'P|fp|0|{{.VP}}|first'; printf '%s\\\\n' 'P|fp|1|{{.VP}}|second'\"", "    ignore_error: true"}},
+			{Name: "failer", Cmds: []C{P(), F()}},
+		}}
+		sc := scen("cancelled-inside-an-ignore_error-command/"+method, pg, vlab.Options{}, "root")
+		sc.Files["src.txt"] = "1\n"
+		sc.UsesFS = true
+		follow := &vlab.Scenario{Name: "followup", Files: sc.Files, Calls: []vlab.CallSpec{{Task: "fp", Vars: [][2]string{{"VP", "@2"}}}}}
+		sc.AfterRun = func(dir string, x *vlab.Exec) {
+			y := runFree(follow, dir)
+			ran := false
+			for _, e := range y.Trace {
+				if strings.Contains(e.Line, "|fp|") {
+					ran = true
+				}
+			}
+			x.Aux["followup_ran"] = fmt.Sprint(ran)
+			x.Aux["followup_err"] = y.ErrStr
+		}
+		check := func(x *vlab.Exec) []vlab.Violation {
+			out := generic("C04", x)
+			first, second := false, false
+			for _, e := range vlab.ParseTrace(x.Trace) {
+				if e.K == 'F' && e.Task == "fp" && e.Idx == "0" {
+					first = true
+				}
+				if e.K == 'F' && e.Task == "fp" && e.Idx == "1" {
+					second = true
+				}
+			}
+			if first && !second && x.Aux["followup_ran"] == "false" && x.Aux["followup_err"] == "" {
+				out = append(out, vlab.V("C04", "skipped_without_successful_attempt", method+":last_attempt=cancelled_inside_ignore_error_command",
+					"fp's command was cancelled after its first statement (its second never ran), yet the next normal run of fp reported up to date and ran nothing"))
+			}
+			return out
+		}
+		us = append(us, &Unit{Name: sc.Name, Sc: sc, Bound: 2, Prune: false, Check: check, Weight: 6})
+	}
 	for _, f := range fams {
 		for _, method := range []string{"checksum", "timestamp"} {
 			method, f := method, f
@@ -509,7 +575,8 @@ func fpUnits(prop, tier string) []*Unit {
 			shapes = append(shapes, fpShape{name: "dir-attr", method: m, dirAttr: true}, fpShape{name: "with-broken-task", method: m, broken: true},
 				fpShape{name: "dir-attr-dynvar-precondition-status", method: m, dirAttr: true, dirSh: true}, fpShape{name: "deferred-command", method: m, deferCmd: true}, fpShape{name: "label-depends-on-call-variable", method: m, condLabel: true})
 		} else {
-			shapes = append(shapes, fpShape{name: "dep", method: m, dep: true}, fpShape{name: "two-generates", method: m, generates: true, gen2: true})
+			shapes = append(shapes, fpShape{name: "dep", method: m, dep: true}, fpShape{name: "two-generates", method: m, generates: true, gen2: true},
+				fpShape{name: "twin-names-underscore-dash", method: m, twin: true}, fpShape{name: "sources-match-nothing", method: m, noMatch: true})
 			if m == "checksum" {
 				// (method timestamp is left out: a source written a millisecond after the run started
 				// carries a modification time that the coarse file-system clock may put before that
